@@ -1669,13 +1669,24 @@ func gobCopy(t types.Type, v value, memo map[*value]*value) value {
 
 // M-PGP: openpgp.CheckDetachedSignature. The real function dereferences its readers
 // (a nil reader panics); the verdict for non-nil readers is whatever the harness's
-// signature reader says (VHVerdict), an error if it does not say.
+// signature reader says for the given keyring (VHVerdictFor: signed by one of its
+// entities), or VHVerdict for readers without that method; an error if it does not say.
 func init() {
 	externals["github.com/ProtonMail/go-crypto/openpgp.CheckDetachedSignature"] = func(fr *frame, a []value) value {
 		i := fr.i
 		signed, sig := a[1].(iface), a[2].(iface)
 		if signed.t == nil || sig.t == nil {
 			runtimePanic(i, "invalid memory address or nil pointer dereference (nil reader passed to openpgp)")
+		}
+		var ring value = a[0]
+		if kr, isIface := ring.(iface); isIface {
+			ring = kr.v // the EntityList inside the KeyRing interface
+		}
+		if res, ok := i.invoke(fr, sig, "VHVerdictFor", ring); ok {
+			if i.truth(res) {
+				return tuple{(*value)(nil), iface{}}
+			}
+			return tuple{(*value)(nil), i.newError("openpgp: invalid signature")}
 		}
 		if res, ok := i.invoke(fr, sig, "VHVerdict"); ok && i.truth(res) {
 			return tuple{(*value)(nil), iface{}}
